@@ -863,7 +863,7 @@ def cexSep : CharRecipe :=
 /-- Words `x`, `y`; two words; separator from `cexSep`; no capitalisation. -/
 def cexR : WLRecipe :=
   { list := some { words := [[120], [121]], unCap := 0 }, length := 2,
-    sep := .recipe cexSep, capitalize := "none" }
+    sepFunc := some (.recipe cexSep), capitalize := "none" }
 
 /-- The password "xx": the word `x` twice and no separator token. -/
 def cexTok : List (Token Nat) :=
@@ -985,7 +985,7 @@ def exTitle : Word → Word
 def exWords : List Word := [[97, 98], [99], [100, 101]]
 
 def exR : WLRecipe :=
-  { list := some { words := exWords, unCap := 0 }, length := 3, sep := .const [45],
+  { list := some { words := exWords, unCap := 0 }, length := 3, sepFunc := some (.const [45]),
     capitalize := "random" }
 
 /-- The premises of `wl_maxprob_nocapbonus`. -/
